@@ -25,19 +25,18 @@ func (e StdEng) StackDense(t DenseTensor, axis int, others ...DenseTensor) (retV
 		cur++
 	}
 
+	// both copy schemes below lay the blocks out in row-major storage order, so the result is
+	// row-major whatever the operands are, and column-major operands are read through iterators
 	info := t.Info()
-	var newStrides []int
-	if info.o.IsColMajor() {
-		newStrides = newShape.CalcStridesColMajor()
-	} else {
-		newStrides = newShape.CalcStrides()
-
+	o := info.o
+	if o.IsColMajor() {
+		o = o.toggleColMajor()
 	}
-	ap := MakeAP(newShape, newStrides, info.o, info.Δ)
+	ap := MakeAP(newShape, newShape.CalcStrides(), o, info.Δ)
 
-	allNoMat := !t.RequiresIterator()
+	allNoMat := !t.RequiresIterator() && !t.DataOrder().IsColMajor()
 	for _, ot := range others {
-		if allNoMat && ot.RequiresIterator() {
+		if allNoMat && (ot.RequiresIterator() || ot.DataOrder().IsColMajor()) {
 			allNoMat = false
 		}
 	}
